@@ -37,7 +37,8 @@ def push(ws, args=(), env=None, timeout=60, binary=None, retry_ok=False, via_d=N
     if env:
         e.update(env)
     if via_d is None:
-        via_d = zlib.crc32(ws.encode()) % 4 == 0
+        # (runs that record a hook trace stay in the workspace: their consumers expect paths relative to it)
+        via_d = zlib.crc32(ws.encode()) % 4 == 0 and 'RAPIDQUILT_VERIF_TRACE' not in e
     cwd = ws
     argv = [binary or vlib.BIN, 'push'] + [str(a) for a in args]
     if via_d:
